@@ -99,7 +99,8 @@ def run(ck):
             for f in FS:
                 if f < 1e3 or f not in res: continue
                 dlt = np.abs(res[f][1] - lim[1]).max()
-                if dlt > 3 * A / f + 1e-9 * scale:
+                # floor: the standard algorithm (used below the switch at ~1e8) carries eps*f error (measured 4e-16*f)
+                if dlt > 3 * A / f + (1e-9 + 1e-14 * min(f, 1e8)) * scale:
                     key = K_MULTI if (multi and f > 1e6) else "c08-smooth-Lss"
                     ck.violation("Lss does not approach its large-rate limit smoothly: |Lss(f=%g) - limit| = %.3g > 3A/f = %.3g" % (f, dlt, 3 * A / f),
                                  {"crystal": nm, "cutoff": cut, "thermo": {k: np.asarray(v).tolist() for k, v in th.items()}, "f": f,
@@ -111,12 +112,12 @@ def run(ck):
             for f in FS:
                 if f < 1e3 or f not in res: continue
                 dlt = max(np.abs(a - b).max() for a, b in zip(res[f][2:], lim[2:]))
-                if dlt > 3 * A / min(f, fref) + 1e-6 * scale:
+                if dlt > 3 * A / min(f, fref) + 1e-5 * scale:   # floor: cancellation noise of the f=1e10 reference itself (~1e-16*f)
                     if multi and f > 1e6: key = K_MULTI
                     elif polar and f > 1e6: key = K_OS
                     elif f >= 1e12: key = K_CANCEL
                     else: key = "c08-smooth-LsvL1vv"
-                    ck.violation("Lsv/L1vv do not approach their large-rate limit smoothly: deviation %.3g at f=%g (allowed %.3g)" % (dlt, f, 3 * A / min(f, fref) + 1e-6 * scale),
+                    ck.violation("Lsv/L1vv do not approach their large-rate limit smoothly: deviation %.3g at f=%g (allowed %.3g)" % (dlt, f, 3 * A / min(f, fref) + 1e-5 * scale),
                                  {"crystal": nm, "cutoff": cut, "thermo": {k: np.asarray(v).tolist() for k, v in th.items()}, "f": f,
                                   "L_f": [x.tolist() for x in res[f]], "L_reference": [x.tolist() for x in lim]}, key=key)
         # (c) forced-large algorithm vs the exact torus chain (crystals outside the known failure regimes)
